@@ -53,6 +53,9 @@ def run(rep: core.Report):
     _r14g(rep)
     _r14h(rep)
     _r14i(rep)
+    from rules import shared_forward
+
+    shared_forward.run(rep, "R14j", "phonopy/api_phonopy.py", "Phonopy", 60)
 
 
 # ---------------------------------------------------------------------------
@@ -772,4 +775,5 @@ def selftest():
     n("mesh: conversion written with np.abs and reordered", "phonopy/phonon/mesh.py", "np.sqrt(abs(eigenvalues)) * np.sign(eigenvalues),", "np.sign(eigenvalues) * np.sqrt(np.abs(eigenvalues)),", nth=0)
     b("mesh.yaml holds conjugated eigenvectors", "phonopy/phonon/mesh.py", "                                    self._eigenvectors[i, k * 3 + ll, j].imag,", "                                    self._eigenvectors[i, k * 3 + ll, j].conj().imag,", "R14i", "write_yaml")
     b("qpoints.yaml swaps band and row index", "phonopy/phonon/qpoints.py", "                                    self._eigenvectors[i][k * 3 + ll, j].real,", "                                    self._eigenvectors[i][j, k * 3 + ll].real,", "R14i", "element")
+    b("run_mesh drops with_eigenvectors on the way to init_mesh", "phonopy/api_phonopy.py", "            with_eigenvectors=with_eigenvectors,\n            with_group_velocities=with_group_velocities,\n            is_gamma_center=is_gamma_center,\n        )\n        self._mesh.run()", "            with_group_velocities=with_group_velocities,\n            is_gamma_center=is_gamma_center,\n        )\n        self._mesh.run()", "R14j", "with_eigenvectors")
     return V
